@@ -227,6 +227,8 @@ def _lin_cases(rng, tier, cs):
         for idx in range(nper):
             n = rng.randint(1, 4)
             dom, dk = _space(rng, n)
+            if solver == 'SCGN':
+                niter = min(niter, min(m, n) + 2)     # past convergence floats may amplify noise (cgn-noise-floor-overflow)
             if solver == 'SCG':
                 M = _spd(rng, n, ill=rng.random() < 0.25)
                 exact_stop = idx == 0 or rng.random() < 0.2
@@ -991,9 +993,9 @@ def _linear_probes(rng, tier, out):
             cb(x)
             niter = rng.choice([3, 8, 20])
             if solver == 'cgn':
-                # any budget: the relative stopping test (fix d9e50f5) ends the loop at convergence;
-                # the former blow-up input is kept as a regression probe below
-                niter = rng.choice([1, 3, 8, 20])
+                # budgets up to a little beyond the rank: the relative stopping test of d9e50f5 does not always
+                # end the loop before rounding noise is amplified (finding cgn-noise-floor-overflow, probed separately)
+                niter = rng.randint(1, min(m, n) + 1)
                 S.conjugate_gradient_normal(op, x, rhs, niter, callback=cb)
                 om = None
             else:
@@ -1114,6 +1116,42 @@ def _cgn_blowup_probe(out):
     _P(out, env['ok'], 'cgn-past-convergence-blowup',
        'conjugate_gradient_normal, 3x2 inconsistent system, niter=20: residual norm never increases '
        '(observed max %.3g after min %.3g)' % (max(env['vals']), min(env['vals'])), rp)
+
+
+def _cgn_noise_floor_probe(rng, tier, out):
+    """residual large compared with the initial gradient: the relative stopping rule (eps^2 |A^T d_0|^2) lies below
+    the noise floor eps |A| |d| of A^T d  (finding cgn-noise-floor-overflow)"""
+    rp = ("import odl, numpy as np\nop=odl.MatrixOperator(np.array([[0.6166937022456869],[0.7872031996952936]]))\n"
+          "rhs=op.range.element([1.488381154283861,-2.940337465966724]); x=op.domain.element([-0.04032254536921642]); vals=[]\n"
+          "cb=lambda z: vals.append(float((op(z)-rhs).norm()))\ncb(x)\n"
+          "try:\n    odl.solvers.conjugate_gradient_normal(op,x,rhs,60,callback=cb)\nexcept OverflowError:\n    vals.append(float('inf'))\n"
+          "observed=vals[:8]; ok=all(b<=a*(1+1e-9)+1e-12 for a,b in zip(vals,vals[1:]))\n")
+    env = {}
+    exec(rp, env)
+    _P(out, env['ok'], 'cgn-noise-floor-overflow',
+       'conjugate_gradient_normal, 2x1 system with singular value 1, niter=60: residual norm never increases '
+       '(observed %r ...)' % (['%.3g' % v for v in env['vals'][:7]],), rp)
+    import odl
+    rs = np.random.RandomState(rng.randrange(2 ** 31))
+    ok, worst = True, None
+    for _ in range(60 if tier == 'quick' else 400):
+        M = rs.randn(2, 1) * 10 ** rs.uniform(-3, 3)
+        M = M / np.linalg.norm(M)
+        b = rs.randn(2) * 10 ** rs.uniform(-2, 4)
+        x0 = (rs.randn(1) * 10 ** rs.uniform(-2, 2)).tolist()
+        op = odl.MatrixOperator(M)
+        rhs = op.range.element(b)
+        x = op.domain.element(list(x0))
+        vals = [float((op(x) - rhs).norm())]
+        try:
+            odl.solvers.conjugate_gradient_normal(op, x, rhs, 60, callback=lambda z: vals.append(float((op(z) - rhs).norm())))
+        except OverflowError:
+            vals.append(float('inf'))
+        if not _mono(vals, 1e-9):
+            ok, worst = False, {'M': M.tolist(), 'b': b.tolist(), 'x0': x0, 'vals': ['%.3g' % v for v in vals[:8]]}
+    _P(out, ok, 'cgn-noise-floor-overflow',
+       'conjugate_gradient_normal on random 2x1 systems with singular value 1 (60 iterations): residual norm never increases',
+       None, worst)
 
 
 def _descent_probes(rng, tier, out):
@@ -1496,6 +1534,7 @@ def probes(rng, tier):
     np.random.seed(rng.randrange(2 ** 31))
     _linear_probes(rng, tier, out)
     _cgn_blowup_probe(out)
+    _cgn_noise_floor_probe(rng, tier, out)
     _descent_probes(rng, tier, out)
     _linesearch_reuse_probes(rng, tier, out)
     _linesearch_stale_state_probes(rng, tier, out)
